@@ -17,32 +17,32 @@ CHECKS = {
   design="DESIGN.md §5 C02, Appendix D"),
  "C03": dict(
   technique="runtime monitor: panic capture + logical-step budgets (verif_hooks tick counters, instruction/data budgets enforced at the data-trait boundary) over bounded-exhaustive token-class sequences, soups and scaling families; witness delta-minimisation",
-  text="Every sequence of 33 token classes up to length 3 (4 thorough, 5 without fillers) with gap fillers, random token and character soups and 14 scaling families up to 4096 (16384) repetitions are pushed through lex, parse and build into both stores; the monitor demands Ok or Err from each stage, no unwinding, at most 64(n+4)^3 loop iterations per stage and at most 16(n+4) instructions / 64(n+4)+4L data cells for an n-token input.",
+  text="Every sequence of 33 token classes up to length 3 (4 thorough, 5 without fillers) with gap fillers, random token and character soups and 14 scaling families up to 4096 (16384) repetitions are pushed through lex, parse and build into both stores; the monitor demands Ok or Err from each stage, no unwinding, at most 64(n+4)^3 loop iterations per stage and at most 16(n+4) instructions / 64(n+4)+4L data cells for an n-token input. The repository's own tests/scripts/*.garnish files (whole, and cut into prefixes / suffixes) are part of the corpus.",
   note="termination/cost decided on logical steps against a fixed cubic bound; aborts (stack overflow, OOM) are caught by the driver's crash path",
   design="DESIGN.md §5 C03, Appendix B"),
  "C04": dict(
   technique="runtime monitor: offline checker over the recorded parse tree and instruction metadata of every accepted input (link agreement, reachability, in-order token accounting, one instruction per node)",
-  text="The same corpus as C03 restricted to inputs that parse and build accept: the recorded ParseResult is checked for agreeing child/parent links, no sharing or cycle, every non-separator node reachable from the root, an in-order walk listing the significant tokens exactly once in source order, and every value/operator node attributed at least one emitted instruction.",
+  text="The same corpus as C03 restricted to inputs that parse and build accept: the recorded ParseResult is checked for agreeing child/parent links, no sharing or cycle, every non-separator node reachable from the root, an in-order walk listing the significant tokens exactly once in source order, and every value/operator node attributed at least one emitted instruction. The repository's own tests/scripts/*.garnish files (whole, and cut into prefixes / suffixes) are part of the corpus.",
   note="violations are keyed by structural root cause (node kinds and relation); dropped redundant separators may remain as unreachable garbage nodes",
   design="DESIGN.md §5 C04"),
  "C05": dict(
   technique="runtime monitor: offline checker over the built instruction stream read back through the data trait + the monitored build's event log (placeholder pushes and patches)",
-  text="Every accepted input of the corpus on both stores: operands of Put/Resolve name existing values of the right kind, jump operands and expression values name existing jump entries, every entry written by the build points inside the program and every placeholder recorded in the event log was patched, the stream ends in EndExpression/JumpTo, the reported entry is one of the build's own entries, and there is exactly one metadata record per instruction naming an existing node.",
+  text="Every accepted input of the corpus on both stores: operands of Put/Resolve name existing values of the right kind, jump operands and expression values name existing jump entries, every entry written by the build points inside the program and every placeholder recorded in the event log was patched, the stream ends in EndExpression/JumpTo, the reported entry is one of the build's own entries, and there is exactly one metadata record per instruction naming an existing node. The repository's own tests/scripts/*.garnish files (whole, and cut into prefixes / suffixes) are part of the corpus.",
   note="placeholders are known from the event log at the trait boundary, not inferred from values",
   design="DESIGN.md §5 C05"),
  "C06": dict(
   technique="runtime monitor: abstract interpretation of every built stream (all paths) + per-step arity check of the executing program against the instruction effect table, via the shadow stacks of the delegating monitor",
-  text="Every accepted input without `;;`: statically, pending-operand depth must be path-independent, never negative and exactly one at EndExpression; dynamically every executed step on both stores must change (operands, input values, frames) as the effect table says and the depths must be restored at the end; reapply loops are run for 1,2,4,8,64 iterations and their stack high-water marks compared.",
+  text="Every accepted input without `;;`: statically, pending-operand depth must be path-independent, never negative and exactly one at EndExpression; dynamically every executed step on both stores must change (operands, input values, frames) as the effect table says and the depths must be restored at the end; reapply loops are run for 1,2,4,8,64 iterations and their stack high-water marks compared. The repository's own tests/scripts/*.garnish files (whole, and cut into prefixes / suffixes) are part of the corpus.",
   note="trusts the instruction effect table (DESIGN Appendix A), which is itself validated by the dynamic part",
   design="DESIGN.md §5 C06, Appendix A"),
  "C07": dict(
   technique="runtime monitor: panic capture around every execution step of accepted programs (incl. boundary-literal programs) under three host modes, on an overflow-checking build and a release build",
-  text="Every accepted input of the corpus plus programs combining 34 boundary literals (i32 limits, huge/tiny/infinite floats, empty and multi-byte text, out-of-range indexes, ranges, slices) with 36 binary and 13 unary operators are executed step by step on both stores with no host, a declining host and an accepting host under a step budget; any unwinding is a violation. Runs under the `mon` (overflow-checks, debug-assertions) and `release` profiles.",
+  text="Every accepted input of the corpus plus programs combining 34 boundary literals (i32 limits, huge/tiny/infinite floats, empty and multi-byte text, out-of-range indexes, ranges, slices) with 36 binary and 13 unary operators are executed step by step on both stores with no host, a declining host and an accepting host under a step budget; any unwinding is a violation. Runs under the `mon` (overflow-checks, debug-assertions) and `release` profiles. The repository's own tests/scripts/*.garnish files (whole, and cut into prefixes / suffixes) are part of the corpus.",
   note="Err results are acceptable; aborts are caught by the driver's crash path",
   design="DESIGN.md §5 C07"),
  "C13": dict(
   technique="runtime monitor: reference-model oracle (independent position-based maximal-munch scanner over a pinned token table) + offline checks of the recorded token vector (losslessness, positions)",
-  text="Every string up to length 3 (4 thorough) over a 34-character alphabet, longer strings over reduced alphabets (up to length 5 / 7), every ordered pair of the 60 operator spellings in four contexts and random assembled strings are lexed by the real lexer; the recorded token vector is checked for losslessness, empty tokens, exact line/column of each token's first character, boundaries and types against the reference scanner, the blank-line rule, and rejection of characters that start no token.",
+  text="Every string up to length 3 (4 thorough) over a 34-character alphabet, longer strings over reduced alphabets (up to length 5 / 7), every ordered pair of the 60 operator spellings in four contexts and random assembled strings are lexed by the real lexer; the recorded token vector is checked for losslessness, empty tokens, exact line/column of each token's first character, boundaries and types against the reference scanner, the blank-line rule, and rejection of characters that start no token. The repository's own tests/scripts/*.garnish files (whole, and cut into prefixes / suffixes) are part of the corpus.",
   note="trusts the pinned token table / scanning rules (DESIGN Appendix E); CR/FF inputs are judged for loss only; rejection of an input the reference can split is accepted",
   design="DESIGN.md §5 C13, Appendix E"),
  "C14": dict(
@@ -92,7 +92,7 @@ CHECKS = {
   design="DESIGN.md §5 C17"),
  "C18": dict(
   technique="runtime monitor: metamorphic oracle over executions - each generated program is run as printed and after every single meaning-free layout rewrite (and random combinations); observed parse tree, final value on both stores and host-call sequence are compared; where a rewrite is admissible is decided by the reference lexer and reference parser, not by the code under test",
-  text="Every small AST and random larger programs are rewritten at every position: widen / replace / remove blank runs, insert a blank or an annotation between adjacent tokens, annotation or comment line inside a blank run, trailing blanks before line breaks and at the end, comment lines after line breaks and at the start, parentheses around every operand, effect-free side-effect blocks added after every value or group and dropped where present, plus random combinations of 2..7 rewrites. The rewritten text must parse to the same tree (modulo trivia, added groups, added blocks) and produce the same value and resolve-call sequence on both stores. Held on the programs and rewrite positions observed.",
+  text="Every small AST and random larger programs are rewritten at every position: widen / replace / remove blank runs, insert a blank or an annotation between adjacent tokens, annotation or comment line inside a blank run, trailing blanks before line breaks and at the end, comment lines after line breaks and at the start, parentheses around every operand, effect-free side-effect blocks added after every value or group and dropped where present, plus random combinations of 2..7 rewrites. The rewritten text must parse to the same tree (modulo trivia, added groups, added blocks) and produce the same value and resolve-call sequence on both stores. Held on the programs and rewrite positions observed. The repository's own tests/scripts/*.garnish files (whole, and cut into prefixes / suffixes) are part of the corpus.",
   note="trusts: the reference lexer/parser as the judge of where blanks may be added or removed; programs with side-effect blocks have no reference tree and only get rewrites that need no confirmation plus the structural ones",
   design="DESIGN.md §5 C18"),
  "C19": dict(
